@@ -1,6 +1,7 @@
 (* C08: soundness of the acyclicity certificate, and examples showing that the hypotheses of
    the theorems are satisfiable by non-trivial plans and that the checkers discriminate. *)
-From Gv Require Import C08.Model C08.Spec C08.ProofsSpec C08.ProofsSort C08.ProofsWaves C08.ProofsOrganize.
+From Gv Require Import C08.Model C08.Spec C08.ProofsSpec C08.ProofsSort C08.ProofsWaves C08.ProofsOrganize
+  C08.ProofsMember C08.ProofsMulti.
 From Coq Require Import List Arith Bool Permutation Lia.
 Import ListNotations.
 
@@ -11,6 +12,12 @@ Proof.
   rewrite forallb_forall in H. specialize (H d Hd). apply orb_true_iff in H. destruct H as [H | H].
   - apply negb_true_iff in H. apply memb_false in H. contradiction.
   - apply Nat.ltb_lt. exact H.
+Qed.
+
+Lemma plain_b_sound l : plain_b l = true -> plain l.
+Proof.
+  unfold plain_b. intros H f Hf. rewrite forallb_forall in H. specialize (H f Hf).
+  destruct (fmerged f); [reflexivity | discriminate].
 Qed.
 
 Lemma plan_checks_sound l : unique_ids_b l = true -> acyclic_b l = true -> acyclic l /\ unique_ids l.
@@ -98,3 +105,43 @@ Qed.
 Example ex_all_modes :
   forall sched multi trigger, organize sched multi trigger ex_plan <> OutOfFuel.
 Proof. intros [] [] []; vm_compute; discriminate. Qed.
+
+(* ---- merged fetches ---- *)
+Definition ent (id : nat) (deps : list nat) (ds : nat) : fetch :=
+  {| fid := id; fdeps := deps; fsrc := Some (ds, 0); fmerged := [] |}.
+
+(* entity fetches 2 and 3 hit the same datasource in the same wave and are merged; 3 lists the
+   shared dependency 0 before its own dependency 1 (the plan of seeded mutant C08-m2) *)
+Definition ex_multi_plan : list fetch := [ mkf 0 []; mkf 1 []; ent 2 [0] 0; ent 3 [0; 1] 0 ].
+
+Example ex_multi_wellformed : acyclic ex_multi_plan /\ unique_ids ex_multi_plan /\ plain ex_multi_plan.
+Proof.
+  split; [|split].
+  - apply plan_checks_sound; vm_compute; reflexivity.
+  - apply plan_checks_sound; vm_compute; reflexivity.
+  - apply plain_b_sound. vm_compute. reflexivity.
+Qed.
+
+Definition ex_multi_node : fetch := {| fid := 2; fdeps := [0; 1]; fsrc := None; fmerged := [2; 3] |}.
+Example ex_multi_sched :
+  organize true true false ex_multi_plan =
+  Done (Sequence [Parallel [Single (mkf 0 []); Single (mkf 1 [])]; Single ex_multi_node]).
+Proof. vm_compute. reflexivity. Qed.
+Example ex_multi_waves :
+  organize false true false ex_multi_plan =
+  Done (Sequence [Parallel [Single (mkf 0 []); Single (mkf 1 [])]; Single ex_multi_node]).
+Proof. vm_compute. reflexivity. Qed.
+
+(* the tree that the mutant produces: self-consistent for its own (truncated) dependency list,
+   rejected by the member-level check against the planner's dependencies *)
+Definition ex_multi_truncated : tree :=
+  Parallel [Sequence [Single (mkf 0 []);
+                      Single {| fid := 2; fdeps := [0]; fsrc := None; fmerged := [2; 3] |}];
+            Single (mkf 1 [])].
+Example ex_multi_checkers :
+  respects_deps_b ex_multi_truncated = true /\
+  respects_member_deps_b ex_multi_truncated ex_multi_plan = false /\
+  members_once_b ex_multi_truncated ex_multi_plan = true /\
+  respects_member_deps_b (Sequence [Parallel [Single (mkf 0 []); Single (mkf 1 [])]; Single ex_multi_node])
+                         ex_multi_plan = true.
+Proof. vm_compute. repeat split; reflexivity. Qed.
